@@ -405,6 +405,23 @@ impl Reg {
         self
     }
 
+    /// Divide the state by its norm. Unlike [`normalize`](Reg::normalize) there is no
+    /// threshold below which the register is reset: after a measurement the state has to
+    /// stay the projection onto the outcome however unlikely that outcome was.
+    fn rescale(&mut self) {
+        let norm = self.get_absolute().sqrt();
+        if norm > 0. {
+            let norm = 1. / norm;
+            match self.th {
+                threading::Single => self.psi.iter_mut().for_each(|v| *v *= norm),
+                #[cfg(feature = "multi-thread")]
+                threading::Multi(n) => crate::threads::global_install(n, || {
+                    self.psi.par_iter_mut().for_each(|v| *v *= norm)
+                }),
+            };
+        }
+    }
+
     /// Return complex amplitudes of quantum states of register in polar form.
     pub fn get_polar(&self) -> Vec<(R, R)> {
         match self.th {
@@ -491,7 +508,7 @@ impl Reg {
         #[cfg(qvnt_verif)]
         crate::verif::log_measure(mask, rand_idx);
         self.collapse_mask(rand_idx, mask);
-        self.normalize();
+        self.rescale();
         super::CReg::with_state(self.q_num, rand_idx & mask)
     }
 
